@@ -32,9 +32,9 @@ LEAN = lambda *names: [('lean', 'rxv.lean', 'unit_lean', {'files': list(names)})
 PROPS = {}
 
 
-def define(pid, title, units, assumptions, design_ref, thorough_extra=()):
+def define(pid, title, units, assumptions, design_ref, thorough_extra=(), level='proof', level_why=''):
     PROPS[pid] = {'title': title, 'units': list(units), 'assumptions': list(assumptions), 'design_ref': design_ref,
-                  'thorough_extra': list(thorough_extra)}
+                  'thorough_extra': list(thorough_extra), 'level': level, 'level_why': level_why}
 
 
 A_COMMON = [
@@ -70,7 +70,30 @@ define('C11', 'streaming promptness', SCALAR + SEQ + PLUMB + SPAWN + TEE + HELP(
        A_COMMON + ['promptness = the per-call emission postconditions: every ensures names the call in which an output appears; no handler uses a scheduler (a scheduler use leaves the verified subset)'],
        'DESIGN 7/C11')
 define('C12', 'math aggregates', HELP('math', 'formal') + [op('scalar', 'scan_mux')] + PLAIN('scan') + [bounded('mux', 'check_c12')],
-       A_COMMON + ['A2f: the accumulator identities are proved over the reals; the IEEE-754 error bound of the statement is only checked on the stated bounded scope (exact rational oracle)'], 'DESIGN 7/C12')
+       A_COMMON + ['A2f: the accumulator identities are proved over the reals; the IEEE-754 error bound of the statement is only checked on the stated bounded scope (exact rational oracle)'], 'DESIGN 7/C12',
+       level='other', level_why='partial: the accumulator identities are discharged deductively over the reals, but the relative-error bound the property is about (IEEE-754 rounding of an '
+       'unbounded fold) is not decided by any contract in reach of z3/cvc5; it is checked against an exact rational oracle on a stated bounded scope only')
 define('C13', 'item-level errors', [op('scalar', n) for n in ('map_mux', 'filter_mux', 'scan_mux')] + ERRORS + [op('seqops', 'demux_observable'), op('seqops', 'demux_mux_observable')]
        + HELP('misc') + [bounded('mux', 'check_c13')], A_COMMON, 'DESIGN 7/C13')
 define('C14', 'memory store', STORE + [bounded('mux', 'check_c14')], A_COMMON[:3] + A_COMMON[6:9], 'DESIGN 7/C14')
+
+define('C15', 'framing round trip', [fn('framing', 'unit_framing', which='line'), fn('framing', 'unit_framing', which='length_prefix'), bounded('io', 'check_c15')],
+       ['A1', 'str.split / str.join / int.to_bytes / int.from_bytes / io.BytesIO models are trusted (rxv/strmodels.py)',
+        'the chunking-independence / uniqueness lemma L4 over the spec functions joinnl, frames, rest is a paper lemma (checked on a bounded scope by the e2e tier)',
+        'termination of the unframing loop is not verified'], 'DESIGN 7/C15')
+
+W = lambda *ws: [fn('wrappers', 'unit_wrappers', which=w) for w in ws]
+A_LIB = ['the third-party libraries are opaque: their streaming laws (output = codec of the concatenated input, independent of chunking; eof iff end marker; '
+         'incremental codec = one-shot codec; loads(dumps(x)) = x; parquet writer/reader round trip) are ASSUMED for the deductive part and exercised on the real '
+         'libraries by the bounded tier only',
+         'A1 synchronous single-threaded delivery', 'termination not verified']
+define('C16', 'compression round trip', W('compression') + [bounded('io', 'check_c16')], A_LIB, 'DESIGN 7/C16')
+define('C17', 'incremental codec', W('codec') + [bounded('io', 'check_c17')], A_LIB, 'DESIGN 7/C17')
+define('C18', 'csv round trip', W('csv') + [fn('framing', 'unit_framing', which='line'), bounded('io', 'check_c18')],
+       A_LIB + ['A2f: float(text) is treated as the exact real value of the literal', 'the string escaping / quoted-field merging of csv.dump / create_line_parser is NOT under contract '
+                '(replace chains are outside solver reach): bounded tier only'], 'DESIGN 7/C18',
+       level='other', level_why='partial: numeric field parsers, parser selection and the file pipeline are discharged deductively; the string escaping / quoted-field merging '
+       '(replace chains, merge_escape_parts) is outside solver reach and is checked exhaustively on a stated small scope only')
+define('C19', 'json lines round trip', W('json', 'codec', 'compression') + [fn('framing', 'unit_framing', which='line'), bounded('io', 'check_c19')], A_LIB, 'DESIGN 7/C19')
+define('C20', 'parquet round trip', W('parquet') + HELP('batch') + [op('scalar', 'scan_mux'), op('scalar', 'filter_mux'), op('scalar', 'map_mux')] + PLAIN('scan') + [bounded('io', 'check_c20')],
+       A_LIB + ['_load_file (pyarrow batch iteration) is covered by the bounded tier only'], 'DESIGN 7/C20')
